@@ -183,6 +183,12 @@ func (c *c05Case) buildSegment(api, encoder string, nfrags int, extras bool) (ou
 				}
 			}
 		}
+		// a track id the fragment does not have: the call must refuse, not put the sample into another track
+		if api == "fullToTrack" || api == "metaToTrack" {
+			if err := frag.AddSampleToTrack(mp4.Sample{Flags: 0x02000000, Dur: 1, Size: 0}, 9999, 0); err == nil {
+				return nil, fmt.Errorf("AddSampleToTrack accepts a sample for track 9999, which the fragment does not have")
+			}
+		}
 		first := uint64(c.Hist[0].Dts + shift[c.Hist[0].T])
 		if api == "samples" || api == "interval" {
 			// two batches when there are at least two samples, through the SAME scratch slice
@@ -544,6 +550,56 @@ func c05Replay(args []string) error {
 		rep.Count(string(line), true, smp)
 		return nil
 	})
+	// large uniform fragments: n equal samples (same duration, size, flags, no cto) - with trun optimisation every per-sample
+	// field moves into tfhd and the trun carries the bare count
+	for _, n := range []int{1024, 1025, 3000} {
+		for _, opt := range []bool{false, true} {
+			cs := J{"uniform_samples": n, "opt": opt}
+			func() {
+				defer func() {
+					if r := recover(); r != nil {
+						rep.Violation("uniform/panic", fmt.Sprintf("panic: %v", r), cs)
+					}
+				}()
+				seg := mp4.NewMediaSegment()
+				frag, err := mp4.CreateFragment(1, 1)
+				if err != nil {
+					return
+				}
+				for i := 0; i < n; i++ {
+					frag.AddFullSample(mp4.FullSample{Sample: mp4.Sample{Flags: 0x02000000, Dur: 1024, Size: 2}, DecodeTime: uint64(1024 * i), Data: []byte{byte(i), byte(i >> 8)}})
+				}
+				seg.AddFragment(frag)
+				if opt {
+					seg.EncOptimize = mp4.OptimizeTrun
+				}
+				var buf bytes.Buffer
+				if err := seg.Encode(&buf); err != nil {
+					rep.Violation("uniform/encode", "encoding fails: "+err.Error(), cs)
+					return
+				}
+				file := cat(mFragInit([]int64{1}, 48000), buf.Bytes())
+				f, err := mp4.DecodeFile(bytes.NewReader(file))
+				if err != nil {
+					key := "uniform/decode"
+					if opt && n > 1024 {
+						key = "readback/optimized-trun-of-more-than-1024-uniform-samples"
+					}
+					rep.Violation(key, "what the encoder wrote is rejected by the decoder: "+err.Error(), cs)
+					return
+				}
+				fss, err := f.Segments[0].Fragments[0].GetFullSamples(f.Init.Moov.Mvex.Trex)
+				ok := err == nil && len(fss) == n
+				for i := 0; ok && i < n; i++ {
+					ok = fss[i].Dur == 1024 && fss[i].Size == 2 && fss[i].DecodeTime == uint64(1024*i) && fss[i].Data[0] == byte(i) && fss[i].Data[1] == byte(i>>8)
+				}
+				if !ok {
+					rep.Violation("uniform/readback", fmt.Sprintf("samples read back differ (%v)", err), cs)
+				}
+				rep.Count(fmt.Sprintf("uniform-%d-%v", n, opt), true, nil)
+			}()
+		}
+	}
 	rep.Extra["read_traced_track_fragments"] = readTraced
 	if rtw != nil {
 		rep.Extra["read_trace_events"] = rtw.N
